@@ -22,7 +22,7 @@ def OpOK (s : Sys) : Op → Prop
 
 theorem subInv_chain (chain chain' : List Nat) (fin fin' : Nat) (s : Sub) (hi : SubInv chain fin s)
     (h : ∀ b : Blk, Canon chain b → b.1 ≤ fin → Canon chain' b ∧ b.1 ≤ fin') : SubInv chain' fin' s := by
-  refine ⟨?_, hi.trackedStored, hi.sortedS, hi.pos, hi.sortedT⟩
+  refine ⟨?_, hi.trackedStored, hi.sortedS, hi.pos, hi.sortedT, hi.dbEq⟩
   intro b hb
   rcases hi.covered b hb with h1 | h1
   · exact Or.inl h1
@@ -52,7 +52,9 @@ theorem step_inv (s : Sys) (hi : SysInv s) (op : Op) (hop : OpOK s op) : SysInv 
   | stepB n => exact ⟨ha, stepN_inv _ _ n _ hb⟩
   | detect => exact ⟨(detectSub_spec _ _ _ ha).inv, (detectSub_spec _ _ _ hb).inv⟩
   | detectCrash => exact ⟨detectCrashSub_inv _ _ _ ha, detectCrashSub_inv _ _ _ hb⟩
-  | restart => exact ⟨ha, hb⟩
+  | restart =>
+    simp only [step]
+    rw [restartSub_eq _ _ _ ha, restartSub_eq _ _ _ hb]; exact ⟨ha, hb⟩
 
 theorem storeCrash (chain : List Nat) (fin : Nat) : ∀ (ts : List Blk) (s : Sub),
     (detectLoopCrash chain fin ts s).store = s.store := by
@@ -86,7 +88,7 @@ theorem run_inv : ∀ (ops : List Op) (s : Sys), SysInv s → OpsOK s ops → Sy
     exact ih _ (step_inv s hi op hok.1) hok.2
 
 theorem init_inv : SysInv {} := by
-  constructor <;> exact ⟨fun b hb => by simp at hb, fun b hb => by simp at hb, by simp, fun b hb => by simp at hb, by simp⟩
+  constructor <;> exact ⟨fun b hb => by simp at hb, fun b hb => by simp at hb, by simp, fun b hb => by simp at hb, by simp, rfl⟩
 
 /-- a state some admissible history leads to -/
 def Reachable (s : Sys) : Prop := ∃ ops, OpsOK {} ops ∧ s = run {} ops
@@ -119,8 +121,70 @@ theorem C06_no_spurious_rewind (chain : List Nat) (fin : Nat) (s : Sub) (hi : Su
     (detectSub chain fin s).2 = .none ∧ (detectSub chain fin s).1.store = s.store :=
   (detectSub_spec chain fin s hi).quiet (fun b hb => hall b (hi.trackedStored b hb))
 
-/-- restarting does not change what is stored or tracked (the tracked headers are reloaded from the database) -/
-theorem C06_restart (s : Sys) : step s .restart = s := rfl
+/-- **restart**: in every reachable state a restart of the node changes nothing — the tracked headers rebuilt from table
+    `tracked_block` are the in-memory ones (so everything proved about detection holds across restarts) -/
+theorem C06_restart (s : Sys) (h : Reachable s) : step s .restart = s := by
+  obtain ⟨ha, hb⟩ := reachable_inv s h
+  simp only [step]
+  rw [restartSub_eq _ _ _ ha, restartSub_eq _ _ _ hb]
+
+/-- rebuilding the map from rows with distinct block numbers, in ANY order: a permutation of the rows, ascending -/
+theorem foldl_trackAdd_perm : ∀ (rows acc : List Blk), acc.Pairwise (fun x y => x.1 < y.1) →
+    (acc ++ rows).Pairwise (fun x y => x.1 ≠ y.1) →
+    (rows.foldl trackAdd acc).Perm (acc ++ rows) ∧ (rows.foldl trackAdd acc).Pairwise (fun x y => x.1 < y.1) := by
+  intro rows
+  induction rows with
+  | nil => intro acc hs _; simpa using hs
+  | cons r rest ih =>
+    intro acc hs hd
+    simp only [List.foldl_cons]
+    have hne : ∀ a ∈ acc, a.1 ≠ r.1 := fun a ha => (List.pairwise_append.mp hd).2.2 a ha r (List.mem_cons_self ..)
+    have hn : r ∉ acc := fun hr => hne r hr rfl
+    have hp : (trackAdd acc r).Perm (acc ++ [r]) := by
+      unfold trackAdd
+      rw [if_neg hn]
+      have hsplit : (acc.filter (fun t => decide (t.1 < r.1)) ++ acc.filter (fun t => decide (r.1 < t.1))).Perm acc := by
+        have h2 : acc.filter (fun t => decide (r.1 < t.1)) = acc.filter (fun t => !decide (t.1 < r.1)) := by
+          apply List.filter_congr
+          intro x hx
+          have := hne x hx
+          by_cases hlt : x.1 < r.1
+          · have : ¬ r.1 < x.1 := by omega
+            simp [hlt, this]
+          · have : r.1 < x.1 := by omega
+            simp [hlt, this]
+        rw [h2]
+        exact List.filter_append_perm _ _
+      have h3 : (acc.filter (fun t => decide (t.1 < r.1)) ++ [r] ++ acc.filter (fun t => decide (r.1 < t.1))).Perm
+          (r :: (acc.filter (fun t => decide (t.1 < r.1)) ++ acc.filter (fun t => decide (r.1 < t.1)))) := by
+        rw [List.append_assoc]; exact List.perm_middle
+      exact h3.trans ((List.Perm.cons r hsplit).trans (List.perm_append_singleton r acc).symm)
+    have hd' : (trackAdd acc r ++ rest).Pairwise (fun x y => x.1 ≠ y.1) := by
+      have h1 : (trackAdd acc r ++ rest).Perm (acc ++ r :: rest) := by
+        have := hp.append_right rest
+        simpa using this
+      exact (List.Perm.pairwise_iff (fun {x y} (h : x.1 ≠ y.1) => Ne.symm h) h1).mpr hd
+    obtain ⟨p1, p2⟩ := ih (trackAdd acc r) (trackAdd_sorted _ _ hs) hd'
+    refine ⟨?_, p2⟩
+    have := hp.append_right rest
+    exact p1.trans (by simpa using this)
+
+/-- **the reload does not depend on the order of the rows**: the query that loads `tracked_block` at start-up orders by
+    subscriber only; whatever order the rows of a subscriber come back in, the rebuilt list is the in-memory list the node
+    had before it stopped -/
+theorem C06_reload_any_order (chain : List Nat) (fin : Nat) (s : Sub) (hi : SubInv chain fin s) (rows : List Blk)
+    (hp : rows.Perm s.db) : reload rows = s.tracked := by
+  rw [hi.dbEq] at hp
+  have hdist : (([] : List Blk) ++ rows).Pairwise (fun (x y : Blk) => x.1 ≠ y.1) := by
+    simp only [List.nil_append]
+    refine (List.Perm.pairwise_iff (R := fun (x y : Blk) => x.1 ≠ y.1) (fun {x y} h => Ne.symm h) hp).mpr ?_
+    exact List.Pairwise.imp (fun {a b : Blk} (h : a.1 < b.1) => Nat.ne_of_lt h) hi.sortedT
+  obtain ⟨p1, p2⟩ := foldl_trackAdd_perm rows [] (by simp) hdist
+  have hperm : (reload rows).Perm s.tracked := by
+    unfold reload; exact (by simpa using p1 : (rows.foldl trackAdd []).Perm rows).trans hp
+  exact List.Perm.eq_of_pairwise (le := fun x y => x.1 < y.1) (fun a b _ _ h1 h2 => by omega) p2 hi.sortedT hperm
+
+example : reload [(7, 3), (2, 1), (5, 2)] = [(2, 1), (5, 2), (7, 3)] := by decide
 
 /-- **stopped during the reorg**: if the node is stopped while a syncer is rewinding (the rewind not committed), the stale
     blocks stay in the store but also stay tracked, so the invariant behind `C06_detected` survives the restart: the next
@@ -327,7 +391,7 @@ theorem step_inv2 (s : Sys) (hi : SysInv s) (h2 : SysInv2 s) (op : Op) (hop : Op
     exact ⟨hcl, subInv2_cut _ _ _ _ ha2 (detectLoop_store _ _ _ _), subInv2_cut _ _ _ _ hb2 (detectLoop_store _ _ _ _)⟩
   | detectCrash =>
     exact ⟨hcl, subInv2_cut _ _ _ _ ha2 (Or.inl (storeCrash _ _ _ _)), subInv2_cut _ _ _ _ hb2 (Or.inl (storeCrash _ _ _ _))⟩
-  | restart => exact ⟨hcl, ha2, hb2⟩
+  | restart => exact ⟨hcl, subInv2_cut _ _ _ _ ha2 (Or.inl rfl), subInv2_cut _ _ _ _ hb2 (Or.inl rfl)⟩
 
 theorem run_inv2 : ∀ (ops : List Op) (s : Sys), SysInv s → SysInv2 s → OpsOK s ops → SysInv2 (run s ops) := by
   intro ops
@@ -483,14 +547,21 @@ theorem C06_driver_code_facts :
 /-! ### F5 — the statement at full strength (any interleaving of detector and drivers) is FALSE of the code -/
 
 /-- on a tracked list sorted by number the two halves, run back to back, are the sequential pass -/
+theorem lastNum_cons (t : Blk) (rest : List Blk) (h : rest ≠ []) : lastNum (t :: rest) = lastNum rest := by
+  unfold lastNum
+  cases rest with
+  | nil => exact absurd rfl h
+  | cons a r => simp [List.getLast?_cons_cons]
+
 theorem detect_is_notify_then_finish (chain : List Nat) (fin : Nat) (to : Nat) :
-    ∀ (ts : List Blk) (s : Sub), (∀ x ∈ s.tracked, x.1 ≤ to) →
+    ∀ (ts : List Blk) (s : Sub), (ts ≠ [] → to = lastNum ts) → (∀ x ∈ s.tracked, x.1 ≤ to) →
       detectFinish (detectNotifyLoop chain fin to ts s).1 (detectNotifyLoop chain fin to ts s).2 = (detectLoop chain fin ts s).1 := by
   intro ts
   induction ts with
-  | nil => intro s _; rfl
+  | nil => intro s _ _; rfl
   | cons t rest ih =>
-    intro s hto
+    intro s hlast hto
+    have hto' : to = lastNum (t :: rest) := hlast (by simp)
     unfold detectNotifyLoop detectLoop
     cases hc : canon chain t.1 with
     | none => rfl
@@ -499,18 +570,20 @@ theorem detect_is_notify_then_finish (chain : List Nat) (fin : Nat) (to : Nat) :
       by_cases hv : v = t.2
       · rw [if_pos hv, if_pos hv]
         apply ih
-        intro x hx
-        split at hx
-        · exact hto x (List.mem_filter.mp hx).1
-        · exact hto x hx
+        · intro hr; rw [hto', lastNum_cons t rest hr]
+        · intro x hx
+          split at hx
+          · exact hto x (List.mem_filter.mp hx).1
+          · exact hto x hx
       · rw [if_neg hv, if_neg hv]
         simp only [detectFinish]
         congr 1
-        apply List.filter_congr
-        intro x hx
-        have := hto x hx
-        simp only [decide_eq_decide]
-        omega
+        · apply List.filter_congr
+          intro x hx
+          have := hto x hx
+          simp only [decide_eq_decide]
+          omega
+        · rw [hto']
 
 /-- **F5 on the model**: blocks 1..3 processed and tracked; blocks 2.. are replaced; the detector notifies, the driver
     rewinds and — before the detector removes the old range — processes and tracks block 2 of the new fork; the removal then
@@ -541,7 +614,7 @@ example :
     "notify, then remove the range" with nothing in between -/
 theorem detectSub_is_notify_then_finish (chain : List Nat) (fin : Nat) (s : Sub) (hi : SubInv chain fin s) :
     detectFinish (detectNotify chain fin s).1 (detectNotify chain fin s).2 = (detectSub chain fin s).1 :=
-  detect_is_notify_then_finish chain fin (lastNum s.tracked) s.tracked s (le_lastNum_of_sorted _ hi.sortedT)
+  detect_is_notify_then_finish chain fin (lastNum s.tracked) s.tracked s (fun _ => rfl) (le_lastNum_of_sorted _ hi.sortedT)
 
 
 end Aggkit.ReorgSync
